@@ -1,6 +1,6 @@
 (** Property C12 — user callbacks run at the documented times with the node's own value. *)
 From Coq Require Import String List ZArith Bool.
-From Zog Require Import Model.Val Model.Engine Spec.Sem Proofs.Refine Proofs.ExactP Model.Objects Proofs.ObjectsP Model.Options Proofs.OptionsP.
+From Zog Require Import Model.Val Model.Engine Spec.Sem Proofs.Refine Proofs.ExactP Model.Objects Proofs.ObjectsP Model.Options Proofs.OptionsP Proofs.CatchP.
 Import ListNotations.
 
 (** The engine's log of callback invocations is exactly the one the context-free semantics assigns:
@@ -55,3 +55,13 @@ Print Assumptions C12_ctx_last_call_wins.
 Theorem C12_ctx_other_keys_nil : forall dirty opts k, mentions opts k = false -> ctx_value dirty opts k = None.
 Proof. exact ctx_value_other_keys_nil. Qed.
 Print Assumptions C12_ctx_other_keys_nil.
+
+(** the PostTransforms of a catching node run when, and only when, no issue existed before the node:
+    a caught failure of the node itself is not such an issue *)
+Theorem C12_transforms_of_a_catching_node : forall m p dat d e0 c, p_catch p = Some c ->
+  let v := snd (sem_prim m (without_pts p) dat d e0) in
+  rerrored (fst (sem_prim m p dat d e0)) = false
+  /\ snd (sem_prim m p dat d e0) =
+     if e0 then v else snd (sem_pts_loop (fun q e => mk_unknown_issue q (dtype_of (p_kind p)) e) true (p_pts p) v).
+Proof. exact catch_with_transforms. Qed.
+Print Assumptions C12_transforms_of_a_catching_node.
